@@ -22,7 +22,8 @@ LM = "cuqi/model/_model.py:LinearModel"
 
 
 def _norm(e) -> str:
-    return unparse(e).replace(" ", "").replace("\n", "")
+    from .common import vstr
+    return vstr(e)
 
 
 def _has_identity_guard(fn) -> bool:
